@@ -239,6 +239,18 @@ def g1(ctx):
         # no shortcut to `true`: membership is only ever affirmed by the identity test at the bottom of the chain
         if name == "contains":
             trues = [d for d in b.defs().get(0, []) if d["kind"] == "assign" and C.const_bool(d["rv"]) is True]
+            # the identity test written as a loop (`for (x, y) in p { if x != y { return false } } true`): that `true` is reached
+            # only through the exhaustion edge of a pair loop whose body can answer false on a comparison — it *is* the identity test
+            def loop_true(d):
+                for lp in C.iterator_loops(b):
+                    sb_, it, none_e, some_e, cs_ = lp
+                    body_ = b.reach(some_e, avoid=none_e)
+                    has_cmp = any(e[1] in body_ and cond[0] in ("eq", "ne") for e, cond in C.all_cond_edges(b))
+                    has_false = any(dd["kind"] == "assign" and C.const_bool(dd["rv"]) is False and dd["bb"] in body_ for dd in b.defs().get(0, []))
+                    if has_cmp and has_false and b.must_pass([0], {d["bb"]}, none_e):
+                        return True
+                return False
+            trues = [d for d in trues if not loop_true(d)]
             ctx.check(not trues, "sift-no-shortcut:" + name, "contains() answers true only through the identity test at the end of the sifting",
                       "Group::contains has a path that answers `true` without sifting the permutation down to the identity (e.g. 'the orbit of the base point is everything'): a transitive group is not the full symmetric group, so permutations that are not symmetries are reported as members and eq() equates invocations it must not", where_of(b, trues[0]["bb"]) if trues else where_of(b))
         ctx.check(bool(base), "sift-base:" + name, "%s's base case tests that the remaining permutation is the identity" % name,
